@@ -244,6 +244,24 @@ theorem filter_nonlang_cons_lang (t : Tok) (ts : List Tok) (h : isLangTok t = tr
     (t :: ts).filter (fun t => !isLangTok t) = ts.filter (fun t => !isLangTok t) := by
   simp [h]
 
+/-- a language token either leaves `cur`/`secs` alone or closes the current section -/
+theorem secStep_lang_cases (s : SecState) (t : Tok) (l : Str) (back hard brk : Bool)
+    (hk : t.kind = .lang l back hard brk) :
+    ((secStep s t).secs = s.secs ∧ (secStep s t).cur = s.cur) ∨
+    ((secStep s t).secs = closeSec s ∧ (secStep s t).cur = []) := by
+  unfold secStep
+  rw [hk]
+  simp only []
+  repeat' split
+  all_goals first | exact Or.inl ⟨rfl, rfl⟩ | exact Or.inr ⟨rfl, rfl⟩
+
+theorem secStep_nonlang (s : SecState) (t : Tok) (hk : ∀ l b h k, t.kind ≠ .lang l b h k) :
+    secStep s t = { s with cur := s.cur ++ [t] } := by
+  unfold secStep
+  split
+  · rename_i l b h k hk'; exact absurd hk' (hk l b h k)
+  · rfl
+
 theorem sections_conserve_gen (toks : List Tok) (s : SecState) :
     ((closeSec (toks.foldl secStep s)).map (·.txt)).flatten =
       (s.secs.map (·.txt)).flatten ++ (getTxtPos s.cur).1 ++
@@ -257,19 +275,20 @@ theorem sections_conserve_gen (toks : List Tok) (s : SecState) :
     simp only [List.foldl_cons]
     have := ih (secStep s t)
     rw [this.1, this.2]
-    unfold secStep
-    split
-    · rename_i l back hard brk hk
+    by_cases hk : ∃ l b h k, t.kind = .lang l b h k
+    · obtain ⟨l, back, hard, brk, hk⟩ := hk
       have hl : isLangTok t = true := by simp [isLangTok, hk]
       rw [filter_nonlang_cons_lang t ts hl]
-      split
-      · exact ⟨rfl, rfl⟩
-      · simp [closeSec_txt, closeSec_pos, getTxtPos]
-    · rename_i hk
+      rcases secStep_lang_cases s t l back hard brk hk with ⟨h1, h2⟩ | ⟨h1, h2⟩
+      · rw [h1, h2]; exact ⟨rfl, rfl⟩
+      · rw [h1, h2]; simp [closeSec_txt, closeSec_pos, getTxtPos]
+    · have hk' : ∀ l b h k, t.kind ≠ .lang l b h k := by
+        intro l b h k e; exact hk ⟨l, b, h, k, e⟩
       have hl : isLangTok t = false := by
         unfold isLangTok; split
-        · rename_i l b h k hk'; exact absurd hk' (hk l b h k)
+        · rename_i l b h k hk''; exact absurd hk'' (hk' l b h k)
         · rfl
+      rw [secStep_nonlang s t hk']
       simp [hl, getTxtPos_append, getTxtPos]
 
 /-- sectioning conserves text and positions: the sections, in order, concatenate to
@@ -297,12 +316,13 @@ theorem closeSec_wf (s : SecState) (h : ∀ x ∈ s.secs, SecWF x) : ∀ x ∈ c
 
 theorem secStep_wf (s : SecState) (t : Tok) (h : ∀ x ∈ s.secs, SecWF x) :
     ∀ x ∈ (secStep s t).secs, SecWF x := by
-  unfold secStep
-  split
-  · split
-    · exact h
-    · exact closeSec_wf s h
-  · exact h
+  by_cases hk : ∃ l b h k, t.kind = .lang l b h k
+  · obtain ⟨l, back, hard, brk, hk⟩ := hk
+    rcases secStep_lang_cases s t l back hard brk hk with ⟨h1, _⟩ | ⟨h1, _⟩
+    · rw [h1]; exact h
+    · rw [h1]; exact closeSec_wf s h
+  · rw [secStep_nonlang s t (fun l b h k e => hk ⟨l, b, h, k, e⟩)]
+    exact h
 
 theorem foldl_secStep_wf (toks : List Tok) (s : SecState) (h : ∀ x ∈ s.secs, SecWF x) :
     ∀ x ∈ (toks.foldl secStep s).secs, SecWF x := by
@@ -708,5 +728,33 @@ theorem getTxtPosML_langs_nodup (toks : List Tok) (main : Str) (thresh : Nat) (l
     simp only [Option.some.injEq, Prod.mk.injEq] at h
     obtain ⟨rfl, rfl⟩ := h
     exact groupParts_nodup out [] (by simp)
+
+/-- one sectioning step updates the language stack exactly as the reference `langAt` does -/
+theorem secStep_stack (s : SecState) (t : Tok) :
+    (secStep s t).stack = langAt s.stack [t] := by
+  by_cases hk : ∃ l b h k, t.kind = .lang l b h k
+  · obtain ⟨l, back, hard, brk, hk⟩ := hk
+    unfold secStep
+    simp only [langAt, hk]
+    repeat' split
+    all_goals rfl
+  · have hk' : ∀ l b h k, t.kind ≠ .lang l b h k := fun l b h k e => hk ⟨l, b, h, k, e⟩
+    rw [secStep_nonlang s t hk']
+    simp only [langAt]
+
+theorem langAt_cons (st : List Str) (t : Tok) (ts : List Tok) :
+    langAt st (t :: ts) = langAt (langAt st [t]) ts := by
+  simp only [langAt]
+  repeat' split
+  all_goals rfl
+
+/-- the stack carried by the sectioning fold is the reference language stack -/
+theorem sections_fold_stack (toks : List Tok) (s : SecState) :
+    (toks.foldl secStep s).stack = langAt s.stack toks := by
+  induction toks generalizing s with
+  | nil => rfl
+  | cons t ts ih =>
+    simp only [List.foldl_cons]
+    rw [ih, secStep_stack, ← langAt_cons]
 
 end Yalafi
